@@ -129,7 +129,7 @@ def reset_hooks():
 def mk(flags, broken):
     reset_hooks()
     lock = T.OrderedLock()
-    lock._waiters = deque(Ev(f) for f in flags)
+    lock._waiters = type(lock._waiters)(Ev(f) for f in flags)   # same container type as the implementation uses (deque today)
     lock._is_broken = broken
     if broken:
         lock._exception = ValueError("earlier")
@@ -366,7 +366,7 @@ def scenario_counter(c0: int, npred: int):
     ctr = T.OrderedCounter()
     ctr._counter = c0
     lock = ctr._lock
-    lock._waiters = deque(Ev(i == 0) for i in range(npred))
+    lock._waiters = type(lock._waiters)(Ev(i == 0) for i in range(npred))
     preds = list(lock._waiters)
     got = []
 
@@ -455,7 +455,7 @@ def scenario_counter_successor(c0: int, npred: int, with_succ: bool):
     ctr._counter = c0
     lock = ctr._lock
     reset_hooks()
-    lock._waiters = deque(Ev(i == 0) for i in range(npred))
+    lock._waiters = type(lock._waiters)(Ev(i == 0) for i in range(npred))
     st = {"succ_ev": None, "succ_ran": False, "mine": None}
 
     def boundary():
@@ -508,6 +508,48 @@ def locked_writes():
     bad = []
     n_writes = 0
 
+    cls = tree.body[0]
+    methods = {n.name: n for n in cls.body if isinstance(n, ast.FunctionDef)}
+
+    def calls_outside_lock(fn_node, target):
+        """does fn_node call self.<target>() lexically outside `with self._lock`?"""
+        found = []
+
+        class C(ast.NodeVisitor):
+            def __init__(self):
+                self.locked = 0
+
+            def visit_With(self, node):
+                is_lock = any(isinstance(i.context_expr, ast.Attribute) and i.context_expr.attr == "_lock" for i in node.items)
+                self.locked += is_lock
+                self.generic_visit(node)
+                self.locked -= is_lock
+
+            def visit_Call(self, node):
+                f = node.func
+                if isinstance(f, ast.Attribute) and f.attr == target and isinstance(f.value, ast.Name) and f.value.id == "self":
+                    found.append(bool(self.locked))
+                self.generic_visit(node)
+
+        C().visit(fn_node)
+        return found
+
+    # private helpers whose EVERY call site is inside the inner lock (directly or in another such helper) run under the lock as a whole
+    always_locked = set()
+    changed = True
+    while changed:
+        changed = False
+        for name in methods:
+            if name in always_locked or not name.startswith("_") or name.startswith("__"):
+                continue
+            sites = []
+            for caller, node in methods.items():
+                for inside in calls_outside_lock(node, name):
+                    sites.append(inside or caller in always_locked)
+            if sites and all(sites):
+                always_locked.add(name)
+                changed = True
+
     class V(ast.NodeVisitor):
         def __init__(self):
             self.locked = 0
@@ -516,7 +558,10 @@ def locked_writes():
         def visit_FunctionDef(self, node):
             old = self.fn
             self.fn = node.name
+            held = node.name in always_locked
+            self.locked += held
             self.generic_visit(node)
+            self.locked -= held
             self.fn = old
 
         def visit_With(self, node):
@@ -551,11 +596,9 @@ def locked_writes():
 
         def visit_Call(self, node):
             f = node.func
-            if (isinstance(f, ast.Attribute) and f.attr in ("append", "popleft", "pop", "appendleft", "clear", "remove", "extend")
+            if (isinstance(f, ast.Attribute) and f.attr in ("append", "popleft", "pop", "appendleft", "clear", "remove", "extend", "insert")
                     and isinstance(f.value, ast.Attribute) and f.value.attr == "_waiters"):
                 self._w(node, "_waiters." + f.attr)
-            if (isinstance(f, ast.Attribute) and f.attr == "set" and self.fn in ("release", "__exit__", "acquire")):
-                pass
             self.generic_visit(node)
 
     V().visit(tree)
